@@ -50,7 +50,7 @@ pub fn run(ctx: &Ctx) {
                 let addr = eth::address_of_secret(&curve, &key_of(&curve, &line, pass, &path));
                 if toks.len() != c.len || r.out() != format!("{line}\n") { ctx.violation(format!("{P}:vanity:{sig}:wrong-length"), format!("{} words for requested length {}", toks.len(), c.len), replay) }
                 else if !address_has_prefix(&addr, &nib) { ctx.violation(format!("{P}:vanity:{sig}:prefix-mismatch"), format!("the selected account of the printed phrase has address {}, which does not begin with {}", eth::eip55(&addr), c.prefix), replay) }
-                else if !reqs.iter().any(|q| q.ok && q.bytes.len() >= ent.len() && q.bytes[..ent.len()] == ent[..]) { ctx.violation(format!("{P}:vanity:{sig}:entropy-not-from-source"), "the printed phrase does not carry one of the answers of the entropy source", replay) }
+                else if !carried_by(&ent, &reqs) { ctx.violation(format!("{P}:vanity:{sig}:entropy-not-from-source"), "the printed phrase does not carry one of the answers of the entropy source", replay) }
             }
         }
     });
